@@ -7,7 +7,7 @@ from ..gen import J, JI
 from . import lincommon as lc
 
 PROP = "C14"
-HOSTILE = ('scale',)
+HOSTILE = ('scale', 'special')
 MONITORS = ("WF",)
 ANCHORS = [("factor.py", "ConjugateFactor._integrate_log_factor"),
            ("measure.py", "GaussianMeasure.integrate_log_factor"),
